@@ -1,15 +1,17 @@
 (* Properties/C11.v — the solution obeys the algebraic laws of finite-horizon dynamic programming. *)
-(* STATUS (partial): proved — the algebraic facts the laws rest on: the masked maximum commutes     *)
-(* with increasing affine maps (so replacing utility by a*utility+b, a > 0, maps every maximum      *)
-(* affinely and keeps the maximisers), an expectation with weights summing to one is                *)
-(* affine-equivariant (the hypothesis 'rows of the transition arrays sum to one' is forced by the    *)
-(* proof), with beta = 0 the objective is the utility.  The full laws for the value tables           *)
-(* (affine law with the geometric sum, horizon invariance, degenerate transitions) are stated as     *)
-(* C11_*_full_statement and are checked on lcm itself by the metamorphic families on every run,      *)
-(* including grids far larger than the specification is asked to enumerate.                          *)
+(* STATUS: proved for the specification — the affine law for whole solutions (C11_affine_law:     *)
+(* replacing utility by a*utility+b, a > 0, maps the value at every period and stored state to      *)
+(* a*V + b*(1+beta+...+beta^(T-1-t)); the hypothesis 'rows of the transition arrays sum to one' is   *)
+(* forced by the proof), its one-period form for arbitrary continuation tables, the algebraic       *)
+(* facts underneath (maximum commutes with increasing affine maps, expectations are                 *)
+(* affine-equivariant), the beta = 0 law for values, and horizon invariance (no function reads the  *)
+(* period: the T-period solution is the tail of the (T+1)-period solution).  The degenerate-rows     *)
+(* law is proved for one expectation (partial) and, like all the laws, checked on lcm itself by the  *)
+(* metamorphic families on every run, including grids far larger than the specification is asked to  *)
+(* enumerate; lcm is tied to the specification by C01's families.                                    *)
 From Coq Require Import Lqa.
 From LCM Require Import Base.Prelude Base.Arr Spec.Lang Spec.Bellman.
-From LCM Require Import Proofs.Spec_Algebra Proofs.Spec_Restrictions.
+From LCM Require Import Proofs.Spec_Algebra Proofs.Spec_Restrictions Proofs.C11_Affine Proofs.C11_Horizon.
 Local Open Scope Q_scope.
 
 Theorem C11_max_commutes_with_increasing_affine_maps : forall a b (l : list val),
@@ -30,16 +32,97 @@ Theorem C11_beta_zero_objective_is_utility : forall m p vnext e u c,
 Proof. exact beta_zero_objective. Qed.
 Print Assumptions C11_beta_zero_objective_is_utility.
 
-(* geometric sum of the remaining periods *)
-Fixpoint geom (beta : Q) (k : nat) : Q := match k with O => 0 | S k' => 1 + beta * geom beta k' end.
+(* The affine law for whole solutions of the specification.  m' is m with the utility body u      *)
+(* replaced by a*u+b (scale_model); no other function reads utility; every row of a transition     *)
+(* array that the model reads sums to one.  Then at every period t and every stored state the       *)
+(* value of m' is a*V + b*(1+beta+...+beta^(T-1-t)), undefined and -inf entries staying what they   *)
+(* are (geom beta k = 1+beta+...+beta^(k-1), defined in Proofs/C11_Affine.v).                       *)
+Theorem C11_affine_law : forall (a b : Q) (m : model) (p : params),
+  0 < a ->
+  (forall f, In f (functions m) -> ~ In "utility"%string (fargs f)) ->
+  (forall e s g row, In (s, g) (stoch_states m) -> weight_row m p e s = Some row ->
+     qsum (map (fun k => nth k row 0) (seq 0 (grid_size g))) == 1) ->
+  forall t idx, (t < n_periods m)%nat ->
+    veq (get VUndef (nth t (solve_spec (scale_model a b m) p) (scalar VUndef)) idx)
+        (vaff a (b * geom (beta p) (n_periods m - t)) (get VUndef (nth t (solve_spec m p) (scalar VUndef)) idx)).
+Proof. exact affine_law. Qed.
+Print Assumptions C11_affine_law.
 
-(* the affine law for whole solutions: stated, checked by the runs, not proved here *)
-Definition C11_affine_law_full_statement : Prop :=
-  forall (m m' : model) (p : params) (a b : Q), 0 < a ->
-    (* m' is m with utility replaced by a*utility+b; rows of all transition arrays sum to one *)
-    forall t idx, (t < n_periods m)%nat -> in_bounds (state_shape m) idx ->
-      veq (get VUndef (nth t (solve_spec m' p) (scalar VUndef)) idx)
-          (vaff a (b * geom (beta p) (n_periods m - t)) (get VUndef (nth t (solve_spec m p) (scalar VUndef)) idx)).
+(* one step of the law, for any continuation tables related by the affine map of the next period *)
+Theorem C11_affine_law_one_period : forall (a b : Q) (m : model) (p : params),
+  0 < a ->
+  (forall f, In f (functions m) -> ~ In "utility"%string (fargs f)) ->
+  (forall e s g row, In (s, g) (stoch_states m) -> weight_row m p e s = Some row ->
+     qsum (map (fun k => nth k row 0) (seq 0 (grid_size g))) == 1) ->
+  forall t last k vnext vnext' sigma,
+    (last = true -> k = 1%nat) ->
+    (last = false -> exists k', k = S k' /\ forall idx, veq (vnext' idx) (vaff a (b * geom (beta p) k') (vnext idx))) ->
+    veq (value_at (scale_model a b m) p t last vnext' sigma)
+        (vaff a (b * geom (beta p) k) (value_at m p t last vnext sigma)).
+Proof. exact value_at_affine. Qed.
+Print Assumptions C11_affine_law_one_period.
+
+(* a model with a stochastic state that meets the hypotheses, and the law computed on it *)
+Local Open Scope string_scope.
+Definition demo_model : model :=
+  mkModel 3 [("h", GDisc 2); ("w", GLin 0 2 3)] [("c", GLin 0 2 3)]
+    [mkUfun "utility" ["c"; "w"; "h"] (EAdd (EVar "c") (EMul (EVar "w") (EVar "h"))) false;
+     mkUfun "next_w" ["w"; "c"] (ESub (EVar "w") (EVar "c")) false;
+     mkUfun "next_h" ["h"] (EConst 0) true;
+     mkUfun "budget_constraint" ["c"; "w"] (ELe (EVar "c") (EVar "w")) false].
+Definition demo_params : params :=
+  mkParams (1 # 2) [] [("h", mkArr [2; 2]%nat [1 # 4; 3 # 4; 1 # 2; 1 # 2])].
+Example C11_affine_law_nonvacuous :
+  (forall f, In f (functions demo_model) -> ~ In "utility" (fargs f)) /\
+  map (fun tab => map vred (data tab)) (solve_spec (scale_model 2 3 demo_model) demo_params)
+  = map (fun tk => map (fun v => vred (vaff 2 (3 * geom (1 # 2) (snd tk)) v)) (data (fst tk)))
+        (combine (solve_spec demo_model demo_params) [3; 2; 1]%nat) /\
+  map (fun tab => map vred (data tab)) (solve_spec demo_model demo_params) <> [] /\
+  Forall (fun tab => Forall (fun v => exists q, v = VFin q) (data tab)) (solve_spec demo_model demo_params).
+Proof.
+  split; [|split; [vm_compute; reflexivity|split; [vm_compute; discriminate|]]].
+  - intros f Hf. simpl in Hf. repeat (destruct Hf as [<-|Hf]; [simpl; intuition discriminate|]). contradiction.
+  - vm_compute. repeat constructor; eexists; reflexivity.
+Qed.
+
+(* beta = 0: wherever the value is defined it is the value of the one-period problem of that period *)
+Theorem C11_beta_zero_values_are_one_period_values : forall m p t vnext sigma,
+  beta p == 0 -> value_at m p t false vnext sigma <> VUndef ->
+  veq (value_at m p t false vnext sigma) (value_at m p t true vnext sigma).
+Proof. exact beta_zero_value. Qed.
+Print Assumptions C11_beta_zero_values_are_one_period_values.
+
+(* no function reads the period: the solution with T periods is the tail of that with T+1 periods, *)
+(* and the values k periods before the end agree for any two horizons                               *)
+Theorem C11_horizon_invariance : forall m p T,
+  (forall f, In f (functions m) -> ~ In period_name (fargs f)) -> (1 <= T)%nat ->
+  tl (solve_spec (with_periods (S T) m) p) = solve_spec (with_periods T m) p.
+Proof. exact horizon_invariance. Qed.
+Print Assumptions C11_horizon_invariance.
+
+Theorem C11_horizon_invariance_any_two_horizons : forall m p T T' k,
+  (forall f, In f (functions m) -> ~ In period_name (fargs f)) -> (k < T)%nat -> (k < T')%nat ->
+  nth (T - 1 - k) (solve_spec (with_periods T m) p) (scalar VUndef)
+  = nth (T' - 1 - k) (solve_spec (with_periods T' m) p) (scalar VUndef).
+Proof. exact horizon_invariance_nth. Qed.
+Print Assumptions C11_horizon_invariance_any_two_horizons.
+
+(* degenerate rows (partial: stated for the expectation, not for whole solutions): with all weights *)
+(* zero except one weight 1, a defined expectation is the value read at that node                   *)
+Theorem C11_degenerate_expectation_partial : forall rd pre l0 post c,
+  Forall (fun nw : env * Q => snd nw == 0) pre -> Forall (fun nw : env * Q => snd nw == 0) post ->
+  expect rd (pre ++ (l0, 1) :: post) = VFin c -> exists v, rd l0 = VFin v /\ c == v.
+Proof. exact expect_degenerate. Qed.
+Print Assumptions C11_degenerate_expectation_partial.
+
+Example C11_horizon_nonvacuous :
+  (forall f, In f (functions demo_model) -> ~ In period_name (fargs f)) /\
+  tl (solve_spec (with_periods 3 demo_model) demo_params) = solve_spec (with_periods 2 demo_model) demo_params /\
+  solve_spec (with_periods 2 demo_model) demo_params <> [].
+Proof.
+  split; [|split; [vm_compute; reflexivity|vm_compute; discriminate]].
+  intros f Hf. simpl in Hf. repeat (destruct Hf as [<-|Hf]; [simpl; intuition discriminate|]). contradiction.
+Qed.
 
 Example C11_nonvacuous :
   veq (vaff 2 3 (vmaxl [VFin 1; VNegInf; VFin 5])) (vmaxl (map (vaff 2 3) [VFin 1; VNegInf; VFin 5])) /\
